@@ -22,6 +22,19 @@ pub mod c19;
 pub mod c20;
 
 pub fn dispatch(ctx: &mut Ctx) -> bool {
+    // thorough tier: several rounds over all workloads (see Ctx::round); quick and replay: one pass
+    let rounds = if ctx.quick() || ctx.replaying() { 1 } else { 12 };
+    ctx.rounds = rounds;
+    for round in 0..rounds {
+        ctx.round = round;
+        if round > 0 && !ctx.time_left() { break }
+        if !dispatch_once(ctx) { return false }
+        ctx.count("rounds_completed_or_started", 1);
+    }
+    true
+}
+
+fn dispatch_once(ctx: &mut Ctx) -> bool {
     match ctx.prop.as_str() {
         "C01" => c01::run(ctx),
         "C02" => c02::run(ctx),
